@@ -227,7 +227,7 @@ pub fn run(run: &mut Run) {
     run.rule = "cases: a well-formed generated file x (>= 40 read schedules: fixed sizes 1,2,3,4,7,8,16,64,4096, seeded random size cycles, cycles containing ErrorKind::Interrupted incl. several in a row, each directly or through BufReader of capacity 1..8192; read_file on a real scratch file) x (a hard error of each chosen kind injected at EVERY byte offset 0..end-of-last-frame+2 for files <= 8 KiB, stepped above; delivered both in one-shot and short-read/interrupted/buffered modes). Oracle: benign schedules give the in-memory observation; a fault before the end of the last frame gives Err(IoError(e)) with e.kind() = injected kind, e carrying the injected marker payload, and Error::source() being that io::Error; a fault at/after the end gives Ok with the same observation. A case is one file with all its schedules and faults (counters report schedules and injections); non-trivial: every case (each contains short reads inside multi-byte fields, Interrupted results and fault offsets inside chunk payloads); distinct by file hash".into();
     run.assumptions = vec!["quick tier: 2 seeded error kinds per file; thorough: all 8 kinds".into()];
     let thorough = run.thorough();
-    let (lanes, cases) = if thorough { (16, 400) } else { (16, 30) };
+    let (lanes, cases) = if thorough { (16, 400) } else { (16, 20) };
     let f = move |tape: &[u32]| check(tape, thorough);
     run_tapes(run, lanes, cases, 800, &f);
 }
